@@ -451,6 +451,22 @@ pub fn warmup(rng: &mut Rng, srv: &mut Srv, t: &mut Trace, depth: u64) {
         t.emit(&srv.call(json!({"m":"accept","id":id}), &mut |s| s.accept_request(id).map_err(|e| format!("{:?}", e))));
     }
     if depth < 2 { return; }
+    // one warm-up in eight creates MANY streams and leaves MANY requests unanswered first (nothing caps either number):
+    // the stream used afterwards is the last one created
+    if rng.chance(1, 8) {
+        let k = *rng.pick(&[17usize, 33, 65, 129, 257]);
+        for i in 0..k {
+            let b = srv.peer.encode(cmd("createStream", 2.0, Amf0Value::Null, vec![]), 0, 0);
+            t.emit(&srv.input(json!({"m":"createStream","txn":txn_json(2.0)}), &b));
+            if i % 4 == 0 {
+                if let Some(&sid) = srv.streams.last() {
+                    let key = rng.pick(&KEYS).to_string();
+                    let b = srv.peer.encode(cmd("play", 0.0, Amf0Value::Null, vec![s(&key)]), 0, sid);
+                    t.emit(&srv.input(json!({"m":"play","msid":sid,"txn":txn_json(0.0),"args":"ok","key":key.as_bytes().to_vec()}), &b));
+                }
+            }
+        }
+    }
     let b = srv.peer.encode(cmd("createStream", 2.0, Amf0Value::Null, vec![]), 0, 0);
     t.emit(&srv.input(json!({"m":"createStream","txn":txn_json(2.0)}), &b));
     if depth < 3 { return; }
